@@ -207,7 +207,7 @@ theorem entryBitmap_spec (P : DProgram) (name : Str) (rxHits : List Nat)
     ∃ v, entryBitmap P name rxHits = some v ∧
       ∀ i, v.testBit i = (decide (i < MaxMatchSetLen) && docMatches (addCalls P) i name rxHits) := by
   obtain ⟨b, ws, hb, hws, _, _, hbit⟩ :=
-    C11.Props.domain_matcher_bitmap_correct MaxMatchSetLen (addCalls P) name rxHits hcalls hn
+    C11.Props.domain_matcher_bitmap_correct_any_case MaxMatchSetLen (addCalls P) name rxHits hcalls hn
   refine ⟨natOfWords ws, ?_, ?_⟩
   · unfold entryBitmap builtFor
     rw [hb]; simp only [hws, Option.map_some]
@@ -605,7 +605,7 @@ theorem exKH_tagged : ∀ op ∈ exKH, OpAll (EntryTagged exKD fqdnOfKey (fun _ 
     | zero => decide
     | succ n =>
       rw [Nat.testBit_succ]
-      simp [docMatches]
+      simp [docMatches, docMatchesCore, AddCall.lowered]
   · refine ⟨by decide, entryBitmap_eq exKD _ _ exKD_calls (by decide) 0 ?_⟩
     intro i
     rw [hlog, Nat.zero_testBit]
@@ -614,7 +614,7 @@ theorem exKH_tagged : ∀ op ∈ exKH, OpAll (EntryTagged exKD fqdnOfKey (fun _ 
         decide
       cases i with
       | zero => exact h0
-      | succ n => simp [docMatches]
+      | succ n => simp [docMatches, docMatchesCore, AddCall.lowered]
     rw [this, Bool.and_false]
 
 example (hash : List Prefix → Nat) (start : Nat) (m0 : KMaps) (old : List Nat) :
